@@ -26,24 +26,24 @@ CHECKS = {
   note="Equivalence is judged through the per-class getter tables and probe queries of sim/store.cpp; transient operating flags are not demanded back.",
   technique="deterministic simulation: write/read round trips on a simulated disk, fault-free baseline of the crash workload"),
 "C09": dict(level="fault_enumeration", ref="§4 C09",
-  text="Crash/corruption configuration of the simulated disk: for every sampled valid file the crash point is enumerated over byte prefixes (all write-event boundaries and interior cuts in quick, every byte in thorough) plus torn tails, lost/duplicated write events and token-level corruptions; the real loaders run on what survived, in forked children under ASan+UBSan with memory and step budgets.",
+  text="Crash/corruption configuration of the simulated disk: for every sampled valid file the crash point is enumerated over byte prefixes (all write-event boundaries and interior cuts in quick, every byte in thorough) plus torn tails, lost/duplicated write events and token-level corruptions; the real loaders run on what survived, in forked children under ASan+UBSan with memory, CPU and step budgets; a returned object is judged against structural rules and the rules the API constructors enforce, then queried, saved and reloaded.",
   note="Exhaustive only over the prefixes of the sampled files, not over all byte strings; an exception escaping a loader counts as a crash because the SWIG layers translate none.",
   technique="deterministic simulation with fault injection: enumerated crash points and seeded corruptions on a simulated disk"),
 "C10": dict(level="exploration", ref="§4 C10",
-  text="Sibling-process history differential: the same recipe is executed bare in one fresh child and after a seeded sequence of perturbing calls (failed requests, other uses of the same objects, generator draws, option toggles restored, copy-then-mutate, incremental-then-undo) in another; observed results must be bit-identical, and copies independent.",
+  text="Sibling-process history differential: the same recipe is executed bare in one fresh child and after a seeded sequence of perturbing calls (failed requests, other uses of the same objects, generator draws, option toggles restored, copy-then-mutate, incremental-then-undo) in another; observed results must be bit-identical, copies of every cloneable class independent of their source, and each direction of a multi-direction variogram equal to the same direction computed alone.",
   note="Bit equality is sound because the library is deterministic for a fixed history (checked by the determinism self-test); documented global options are restored before the observed call.",
   technique="deterministic simulation: seeded interleavings of perturbing calls, sibling-process differential oracle"),
 "C11": dict(level="exploration", ref="§4 C11",
-  text="Replicated state machine: one seeded op history applied to every storage (rectangular, square, symmetric, sparse/Eigen, sparse/cs) and to a naive long-double model, with the thread count and the sparse back-end switched mid-history; replicas must stay within a forward error bound of the model, ill-formed ops must be refused.",
+  text="Replicated state machine: one seeded op history applied to every storage (rectangular, square, symmetric, sparse/Eigen, sparse/cs) and to a naive reference model (magnitudes from 1e-8 to 1e8), with the thread count and the sparse back-end switched mid-history; replicas must stay within a forward error bound of the model, ill-formed ops must be refused.",
   note="Thread count is a seeded knob; interleavings inside Eigen/libgomp are not owned by the scheduler (DESIGN §8), each multi-thread run is executed twice and must hash identically.",
   technique="deterministic simulation: replicated op histories vs reference model with a seeded thread-count schedule"),
 "C13": dict(level="exploration", ref="§4 C13",
-  text="History differential specialised to simulators (turning bands, FFT, SPDE, Gibbs, PGS): same seed after any prefix of other calls must reproduce bit for bit, other seed/rank must differ, plus conditioning, bounds and facies invariants evaluated on every simulated run.",
+  text="History differential specialised to simulators (turning bands conditional and not, FFT, Gibbs sampler, plurigaussian conditional and not): same seed after any prefix of other calls must reproduce bit for bit, other seed/rank must differ, plus conditioning, bounds and facies invariants evaluated on every simulated run.",
   note="Data sets have distinct locations (the premise of exact conditioning); tolerance at data points is that of the underlying kriging.",
   technique="deterministic simulation: seeded call histories around seeded simulators, sibling differential + output invariants"),
 "C19": dict(level="fault_enumeration", ref="§4 C19",
   text="For each sampled calculator configuration a trace pass records every (hook site, occurrence) reached, then every single-fault placement is executed in its own child (all placements in thorough, strided cap in quick) together with natural failures; snapshots of both data bases before/after decide roll-back, and a repeat call decides usability.",
-  note="Complete over single-fault placements of the sampled configurations only; hook sites mimic outcomes the callers already test for.",
+  note="Complete over single-fault placements of the sampled configurations only; hook sites mimic outcomes the callers already test for (the site after the last stage is traced but never armed: the shipped code cannot fail there).",
   technique="deterministic simulation with fault injection: enumerated single-fault placements at guarded hook sites, snapshot oracle"),
 }
 def main():
